@@ -252,11 +252,14 @@ def Thread.initial : Thread → Bool
   | .writer => true
   | .obs _ => true
 
-def Thread.pid : Thread → Option Nat
-  | .prod id _ _ _ => some id
+/-- the key under which the monitor files a caller: producers `(false, id)`, Stop callers `(true, id)` -/
+def Thread.pid : Thread → Option (Bool × Nat)
+  | .prod id _ _ _ => some (false, id)
+  | .stopper id _ => some (true, id)
   | _ => none
 
-/-- Producer identifiers (they index the monitor's `mark`) are pairwise distinct. -/
+/-- Producer identifiers (they index the monitor's `mark`/`passed`) are pairwise distinct, and so are the
+identifiers of the Stop callers (they index `snap`). -/
 def distinctIds (ts : List Thread) : Prop := (ts.filterMap Thread.pid).Nodup
 
 /-- A thread that has nothing left to do. -/
@@ -307,13 +310,25 @@ to its Wait, the writer waits (counter is 1), producer 0 sends and returns, the 
 def windowDupSched : List (Nat × Nat) :=
   rep 0 13 ++ rep 1 7 ++ rep 2 4 ++ rep 3 3 ++ rep 0 2 ++ rep 3 7 ++ rep 3 3 ++ rep 2 3
 
+/-- `two-stops`: producer 0, two Stop callers, the writer. -/
+def twoStopsThreads : List Thread :=
+  [.prod 0 .idle 0 [0], .stopper 0 .idle, .stopper 1 .idle, .writer]
+
+/-- `two-stops`: the producer enqueues object 0 completely (15), the writer takes it up to and including
+its BatchWrite (6: there the real BatchWrite is held on a channel), Stop 0 runs up to its Wait (4), Stop 1 is
+invoked and blocks on the mutex (1); release: the writer commits, calls Done and leaves (6), Stop 0 returns
+(3), Stop 1 gets the mutex, finds `running` false and returns (4). -/
+def twoStopsSched : List (Nat × Nat) :=
+  rep 0 15 ++ rep 3 6 ++ rep 1 4 ++ rep 2 1 ++ rep 3 6 ++ rep 1 3 ++ rep 2 4
+
 def stuckProducers (S : Sys St Thread) (c : Cfg St Thread) : List Nat :=
   c.2.filterMap (fun t => match t with
     | .prod id pc _ _ => if pc ≠ .idle ∧ (S.step c.1 t).isEmpty then some id else none
     | _ => none)
 
-/-- A trace per participant (producers, flag test-and-sets, Stop, writer): what a forced schedule determines. -/
-def projections (S : Sys St Thread) (c : Cfg St Thread) (p : Nat) : String :=
+/-- A trace per participant (producers, flag test-and-sets, each Stop caller, writer): what a forced schedule
+determines. -/
+def projections (S : Sys St Thread) (c : Cfg St Thread) (p : Nat) (k : Nat := 1) : String :=
   let tr := c.1.tr.reverse
   let prod (i : Nat) : String :=
     s!"P{i}:" ++ ",".intercalate ((tr.filter (fun e => match e with
@@ -321,9 +336,10 @@ def projections (S : Sys St Thread) (c : Cfg St Thread) (p : Nat) : String :=
       ++ ((stuckProducers S c).filter (· == i)).map (fun q => s!"bl.{q}"))
   let grp (name : String) (f : Event → Bool) : String := name ++ ",".intercalate ((tr.filter f).map Event.render)
   "|".intercalate ((List.range p).map prod ++
-    [grp "F:" (fun e => match e with | .schedNew _ => true | .schedDup _ => true | _ => false),
-     grp "S:" (fun e => match e with | .stopCall _ => true | .stopRet _ => true | _ => false),
-     grp "W:" (fun e => match e with | .reset _ => true | .write _ _ => true | .commit => true | .done _ => true | _ => false)])
+    [grp "F:" (fun e => match e with | .schedNew _ => true | .schedDup _ => true | _ => false)] ++
+    (List.range k).map (fun j => grp s!"S{j}:" (fun e => match e with
+      | .stopCall t => t == j | .stopRet t => t == j | _ => false)) ++
+    [grp "W:" (fun e => match e with | .reset _ => true | .write _ _ => true | .commit => true | .done _ => true | _ => false)])
 
 def kvArg (k : String) (ws : List String) : Nat :=
   match ws.filterMap (fun w => if w.startsWith (k ++ "=") then (w.drop (k.length + 1)).toNat? else none) with
@@ -337,6 +353,7 @@ def modelLine (ws : List String) : String :=
   | "window" :: _ => projections sys (runSched sys (initSt q 1, witnessThreads p (fun _ => 0)) (windowSched p)) p
   | "window-block" :: _ => projections sys (runSched sys (initSt q 1, witnessThreads p id) (windowSched p)) p
   | "window-dup" :: _ => projections sys (runSched sys (initSt q 1, witnessThreads 2 (fun _ => 0)) windowDupSched) 2
+  | "two-stops" :: _ => projections sys (runSched sys (initSt q 1, twoStopsThreads) twoStopsSched) 1 2
   | _ => "unknown-witness"
 
 def showVerdict (final : Bool) : Option Why → String
